@@ -439,11 +439,34 @@ class SsbGraphMinimizer:
         logger.debug("Grouping switches...")
         for i, g in enumerate(self._graphs):
             es_to_delete = set()
+            vs_to_delete = set()
             for v in g.vs:
                 if isinstance(v["op"], SsbLabelJump) and isinstance(v["op"].get_marker(), SwitchStart):
                     # SWITCH. Let's see what cases can be combined
+                    # The default edge leads to the jump that is run when no case matches. If that jump only leads to
+                    # the block of one of the cases, the default belongs to that case ("case 1: default: ..."):
+                    # connect the default edge with that block, so that it is combined with the case below.
+                    for e in v.out_edges():
+                        jump_v = e.target_vertex
+                        if (
+                            e["is_else"]
+                            and e["switch_ops"] is None
+                            and isinstance(jump_v["op"], SsbLabelJump)
+                            and jump_v["op"].maybe_root is not None
+                            and jump_v["op"].root.op_code.name == OP_JUMP
+                            and jump_v["op"].get_marker() is None
+                            and len(jump_v.in_edges()) == 1
+                            and len(jump_v.out_edges()) == 1
+                        ):
+                            block_v = jump_v.out_edges()[0].target_vertex
+                            if any(ce.target == block_v.index and not ce["is_else"] for ce in v.out_edges()):
+                                self._reconnect(g, v, e, block_v, True)
+                                es_to_delete.add(e)
+                                vs_to_delete.add(jump_v.index)
                     case_targets: dict[int, list[Edge]] = {}
                     for e in v.out_edges():
+                        if e in es_to_delete:
+                            continue
                         if e.target not in case_targets:
                             case_targets[e.target] = []
                         case_targets[e.target].append(e)
@@ -465,6 +488,7 @@ class SsbGraphMinimizer:
                         self._update_edge_style(first_e)
 
             g.delete_edges(es_to_delete)
+            g.delete_vertices(vs_to_delete)
             if len(es_to_delete) > 0:
                 find_first_common_next_vertex_in_edges__clear_cache(g)
 
